@@ -9,3 +9,4 @@ import TlxVerif.Props.C07
 #print axioms TlxVerif.C07.front_end_switch
 #print axioms TlxVerif.C07.sliceChunk_eq
 #print axioms TlxVerif.C07.equallySplit_zero_witness
+#print axioms TlxVerif.C07.merge_phase_all_schedules
